@@ -23,6 +23,7 @@ type Engine struct {
 	contracts *Contracts
 	funcs     map[string]*ssa.Function
 	mutGlobal map[*ssa.Global]bool
+	globalInit map[*ssa.Global]*globalInit
 	srcCache  map[string][]byte
 	posNodes  map[*ssa.Function]map[token.Pos]ast.Node
 	fatals    []string
@@ -81,19 +82,38 @@ func LoadEngine(repo string, patterns []string, contractFiles []string) (*Engine
 			return nil, err
 		}
 	}
-	for _, p := range pkgs {
+	// contract files of the loaded packages and of every package they import (callee contracts)
+	seenPkg := map[string]bool{}
+	var walk func(p *packages.Package) error
+	walk = func(p *packages.Package) error {
+		if seenPkg[p.PkgPath] {
+			return nil
+		}
+		seenPkg[p.PkgPath] = true
 		for _, f := range p.GoFiles {
 			if strings.HasSuffix(f, "zz_verif_contracts.go") {
 				if err := E.contracts.LoadFile(f, "repo"); err != nil {
-					return nil, err
+					return err
 				}
 			}
+		}
+		for _, imp := range p.Imports {
+			if err := walk(imp); err != nil {
+				return err
+			}
+		}
+		return nil
+	}
+	for _, p := range pkgs {
+		if err := walk(p); err != nil {
+			return nil, err
 		}
 	}
 	if len(E.contracts.Errs) > 0 {
 		return nil, fmt.Errorf("contract errors:\n%s", strings.Join(E.contracts.Errs, "\n"))
 	}
 	E.scanGlobals()
+	E.scanInits()
 	return E, nil
 }
 
@@ -126,11 +146,38 @@ func (E *Engine) scanGlobals() {
 					if _, ok := in.(*ssa.DebugRef); ok {
 						continue
 					}
+					if fa, ok := in.(*ssa.FieldAddr); ok && readOnlyAddr(fa) {
+						continue // &g.f used only for loads
+					}
 					E.mutGlobal[gl] = true
 				}
 			}
 		}
 	}
+}
+
+// readOnlyAddr: every use of the address is a load (possibly through further field addresses).
+func readOnlyAddr(v ssa.Value) bool {
+	refs := v.Referrers()
+	if refs == nil {
+		return false
+	}
+	for _, r := range *refs {
+		switch x := r.(type) {
+		case *ssa.DebugRef:
+		case *ssa.UnOp:
+			if x.Op != token.MUL {
+				return false
+			}
+		case *ssa.FieldAddr:
+			if !readOnlyAddr(x) {
+				return false
+			}
+		default:
+			return false
+		}
+	}
+	return true
 }
 
 func (E *Engine) immutableGlobal(g *ssa.Global) bool {
